@@ -191,8 +191,16 @@ func pwDeathFrames(text string) (frames, head string) {
 	rest := strings.TrimLeft(text[i:], "\n")
 	ls := strings.Split(rest, "\n")
 	head = ls[0]
-	var fr []string
+	var fr, ext []string
 	seenG := false
+	defer func() {
+		if frames == "" {
+			if len(ext) > 3 {
+				ext = ext[:3]
+			}
+			frames = strings.Join(ext, "<")
+		}
+	}()
 	for _, l := range ls[1:] {
 		if strings.HasPrefix(l, "goroutine ") {
 			if seenG {
@@ -200,6 +208,14 @@ func pwDeathFrames(text string) (frames, head string) {
 			}
 			seenG = true
 			continue
+		}
+		if seenG && l != "" && !strings.HasPrefix(l, "\t") && !strings.HasPrefix(l, "github.com/openGemini/openGemini/") &&
+			!strings.HasPrefix(l, "runtime.") && !strings.HasPrefix(l, "panic(") && !strings.HasPrefix(l, "log.") && !strings.HasPrefix(l, "created by") {
+			f := l
+			if k := strings.LastIndex(f, "("); k > 0 {
+				f = f[:k]
+			}
+			ext = append(ext, f)
 		}
 		if strings.HasPrefix(l, "github.com/openGemini/openGemini/") && !strings.Contains(l, "verifsim") && !strings.Contains(l, "zz_verif") {
 			f := strings.TrimPrefix(l, "github.com/openGemini/openGemini/")
